@@ -76,6 +76,41 @@ BigPopPart(d) ==
            /\ Emit(c("ci_wilson") @@ [kminus |-> m])
            /\ Emit(c("ci") @@ [kminus |-> m])
            /\ Emit(c("stats_new") @@ [kminus |-> m])
+     \* populations beyond 2^53 (n = 2^53 + r: odd ones have no f64) at the edge of the domain: k = n - m and k = m for
+     \* m = 0..3 - the domain is that of the INTEGER counts
+     /\ (i = 1 /\ j = 1 /\ li = 12) => \A r \in {0, 1, 3} : \A m \in 0..3 : \A side \in {1, 2} :
+           LET e(fe) == [c(fe) EXCEPT !.nbig = [a |-> 1, p |-> 53], !.kbig = [a |-> m, p |-> 0]] @@ [nplus |-> r]
+                        @@ (IF side = 1 THEN [kminus |-> m] ELSE <<>>) IN
+           /\ Emit(e("ci_wilson"))
+           /\ Emit(e("ci"))
+           /\ Emit(e("stats_new"))
+
+\* confidence levels far outside the grid (two-sided 1 - 10^-6 .. 1 - 10^-11, one-sided also 10^-7 and 10^-9)
+\* (the rows of spec/tables/zqx.ndjson, same order; the tiny levels are used one-sided only: next to the median nothing is tabulated)
+XLevelDecs == <<"0.999999", "0.9999999", "0.99999999", "0.999999999", "0.99999999999", "0.0000001", "0.000000001">>
+XLevelDec(xi) == XLevelDecs[xi]
+XLevelPart(d) ==
+  \A xi \in DOMAIN XLevelDecs : \A ki \in 1..3 : (xi <= 5 \/ ki # 1) =>
+     \A nk \in { <<60, 30>>, <<400, 37>>, <<1000, 500>>, <<100000, 300>>, <<1000000, 999000>> } :
+        LET c(fe) == [op |-> "prop.xlev", fe |-> fe, n |-> nk[1], k |-> nk[2], xi |-> xi, li |-> 0,
+                      conf |-> [kind |-> CKinds[ki], level |-> [dec |-> XLevelDec(xi)]],
+                      grp |-> Grp, rowstart |-> TRUE, first |-> TRUE, method |-> IF fe = "ci_z_normal" THEN "wald" ELSE "wilson"] IN
+        /\ Emit(c("ci_z_normal"))
+        /\ Emit(c("ci_wilson"))       \* the reference of the front-ends that follow
+        /\ Emit(c("ci"))
+        /\ Emit(c("stats_new"))
+
+\* the edge of the documented domain for EVERY population up to PROP_EDGE (2, resp. 10, successes or failures exactly, and one
+\* less), one confidence per population: the domain is a statement about the integer counts, whatever n
+EdgeMax == EnvInt("PROP_EDGE", 2000)
+EdgePart(d) ==
+  \A n \in 41..EdgeMax :
+     LET ki == 1 + (n % 3)  li == IF n % 2 = 0 THEN 12 ELSE 9
+         c(fe, k) == Case(fe, n, k, ki, li, TRUE, TRUE) @@ [method |-> IF fe = "ci_z_normal" THEN "wald" ELSE "wilson"] IN
+     /\ \A k \in {1, 2, n - 2, n - 1} : Emit(c("ci_wilson", k))
+     /\ \A k \in {9, 10, n - 10, n - 9} : Emit(c("ci_z_normal", k))
+     /\ Emit(c("ci_wilson", 2)) /\ Emit(c("ci", 2)) /\ Emit(c("stats_new", 2))
+     /\ Emit(c("ci_wilson", n - 2)) /\ Emit(c("ci", n - 2)) /\ Emit(c("stats_new", n - 2))
 
 \* every k of a few populations through the count-based and ratio-based entry points (the coverage of C12 is that of ci_wilson
 \* only if they all return its interval)
@@ -109,6 +144,6 @@ LevelsPart(d) ==
 
 Next == /\ ~done
         /\ done' = TRUE
-        /\ CASE Grp = "row" -> (RowPart(done) /\ BigPopPart(done) /\ RatioTiePart(done)) [] Grp = "big" -> BigPopPart(done) [] Grp = "fronts" -> FrontsPart(done) [] Grp = "mult" -> MultPart(done) [] Grp = "levels" -> LevelsPart(done)
+        /\ CASE Grp = "row" -> (RowPart(done) /\ BigPopPart(done) /\ RatioTiePart(done) /\ XLevelPart(done)) [] Grp = "big" -> (BigPopPart(done) /\ XLevelPart(done)) [] Grp = "fronts" -> FrontsPart(done) [] Grp = "edge" -> EdgePart(done) [] Grp = "mult" -> MultPart(done) [] Grp = "levels" -> LevelsPart(done)
 Spec == Init /\ [][Next]_done
 =============================================================================
